@@ -1,5 +1,6 @@
 import Hgxv.Proofs.C04Rej
 import Hgxv.Proofs.C04AggSpec
+import Hgxv.Proofs.C04Promote
 /-! # C04 - MultiplexHypergraph keeps (hyperedge, layer) records; aggregation sums layers
 
 Objects (see `Model/C04.lean`, `Model/C04Spec.lean`): `Store` = the tables of the Python object, `step`/`run` =
@@ -212,6 +213,68 @@ theorem C04_aggregated_history (w : Bool) (hm : HMeta) (ops : List Op) (hw : ∀
   intro e he hc
   rw [h6 e he, C04_overlap _ h e, ← hc]
 
+/-- **Promotion by a weighted batch** (strengthening round; seeded C04-b2, C04-c2 live here). In every reachable state,
+weighted or NOT, `add_edges([r], [l], weights=[w])` is accepted, the hypergraph is weighted afterwards, the record `(r, l)`
+weighs `w` if it is new and `w0 + w` if it was there - and in an unweighted hypergraph `w0` is 1, so a record that predates
+the promotion weighs `1 + w` -, and every other record keeps its weight and metadata. -/
+theorem C04_promotion (s : Store) (h : Inv s) (r : List Node) (l : Layer) (w : Int) (hr : r.Nodup) :
+    (addEdges s [r] [l] (some [w]) none).2 = Out.ok ∧
+    (addEdges s [r] [l] (some [w]) none).1.weighted = true ∧
+    getWeight (addEdges s [r] [l] (some [w]) none).1 r l =
+      some (match getWeight s r l with | none => w | some w0 => w0 + w) ∧
+    (s.weighted = false → ∀ w0, getWeight s r l = some w0 → w0 = one) ∧
+    (∀ raw' l', (canon raw', l') ≠ (canon r, l) →
+      getWeight (addEdges s [r] [l] (some [w]) none).1 raw' l' = getWeight s raw' l' ∧
+      getEdgeMeta (addEdges s [r] [l] (some [w]) none).1 raw' l' = getEdgeMeta s raw' l') := by
+  have hrs : ∀ x ∈ [r], x.Nodup := by
+    intro x hx; simp at hx; rw [hx]; exact hr
+  have h1 := addEdges_inv s [r] [l] (some [w]) none h hrs
+  obtain ⟨a1, a2⟩ := abs_addEdges s [r] [l] (some [w]) none h hrs
+  obtain ⟨b1, b2, b3⟩ := Spec.promote_single (abs s) r l w
+  refine ⟨a2.trans b1, ?_, ?_, ?_, ?_⟩
+  · have : (abs (addEdges s [r] [l] (some [w]) none).1).weighted = true := by rw [a1]; exact b2
+    exact this
+  · rw [getWeight_abs _ _ _ h1, getWeight_abs _ _ _ h, a1]
+    unfold Spec.getWeight
+    rw [b3]
+    cases get? (abs s).edges (canon r, l) with
+    | none => rfl
+    | some p => rfl
+  · intro hu w0 hg
+    exact getWeight_unweighted s h hu r l w0 hg
+  · intro raw' l' hk
+    refine addEdges_other_weight s [r] [l] (some [w]) none raw' l' h hrs ?_
+    intro p hp
+    simp at hp
+    rw [hp]
+    exact hk
+
+/-- **After the promotion the hypergraph is an ordinary weighted one**: in a weighted reachable state `add_edge(raw, l, w, md)`
+is accepted for every weight, a record that is already there (also one that predates a promotion) accumulates `w0 + w`, a new one
+starts at `w`; the metadata is replaced. -/
+theorem C04_weighted_reinsert (s : Store) (h : Inv s) (hw : s.weighted = true) (raw : List Node) (l : Layer) (w : Int)
+    (md : Option Meta) (hraw : raw.Nodup) :
+    (addEdge s raw l (some w) md).2 = Out.ok ∧
+    getWeight (addEdge s raw l (some w) md).1 raw l =
+      some (match getWeight s raw l with | none => w | some w0 => w0 + w) ∧
+    getEdgeMeta (addEdge s raw l (some w) md).1 raw l = some (md.getD []) := by
+  have h1 := addEdge_inv s raw l (some w) md h hraw
+  obtain ⟨a1, a2⟩ := abs_addEdge s raw l (some w) md h
+  have hw' : (abs s).weighted = true := hw
+  refine ⟨a2.trans (Spec.addEdge_ok_weighted _ _ _ _ _ hw'), ?_, ?_⟩
+  · rw [getWeight_abs _ _ _ h1, getWeight_abs _ _ _ h, a1]
+    unfold Spec.getWeight
+    rw [Spec.addEdge_self _ _ _ _ _ hw']
+    cases get? (abs s).edges (canon raw, l) with
+    | none => rfl
+    | some p => rfl
+  · rw [getEdgeMeta_abs _ _ _ h1, a1]
+    unfold Spec.getEdgeMeta
+    rw [Spec.addEdge_self _ _ _ _ _ hw']
+    cases get? (abs s).edges (canon raw, l) with
+    | none => rfl
+    | some p => rfl
+
 /-! ## non-vacuity: a concrete history with a re-insertion in permuted order, the same node set in three layers, a
 weighted batch holding it twice, a removal, and `remove_node` with a shrink-merge -/
 
@@ -230,3 +293,21 @@ example : (step (run (init false) []) (.addEdges [[1, 2], [1, 2]] [0, 0] (some [
 example : (addEdges (init false) [[1, 2], [2, 1]] [0, 1] (some [4, 8]) none).2 = Out.ok ∧
     getWeight (addEdges (init false) [[1, 2], [2, 1]] [0, 1] (some [4, 8]) none).1 [1, 2] 1 = some 8 := by decide
 example : Inv (run (init true) C04_ops) := C04_inv true [] C04_ops (by decide)
+
+
+/-! non-vacuity of the promotion theorems: an UNWEIGHTED hypergraph with two records, promoted by a batch that names one of
+them again (1 + 2 = 3 units = 12 quanta), then ordinary weighted calls on records that predate the promotion -/
+def C04_promo_ops : List Op :=
+  [.addEdge [1, 2] 0 none none, .addEdge [3, 1, 2] 0 none (some [(100, 5)]), .addEdges [[2, 1], [2, 3]] [0, 1] (some [8, 2]) none,
+   .addEdge [1, 2] 0 (some 6) none, .setWeight [3, 2, 1] 0 10, .removeNode 3 true]
+
+example : ∀ op ∈ C04_promo_ops, op.WF := by decide
+example : (run (init false) (C04_promo_ops.take 2)).weighted = false ∧ (run (init false) (C04_promo_ops.take 3)).weighted = true := by decide
+example : getWeight (run (init false) (C04_promo_ops.take 3)) [1, 2] 0 = some 12 ∧
+    getWeight (run (init false) (C04_promo_ops.take 3)) [1, 2, 3] 0 = some 4 ∧
+    getWeight (run (init false) (C04_promo_ops.take 3)) [2, 3] 1 = some 2 := by decide
+example : getWeight (run (init false) (C04_promo_ops.take 4)) [2, 1] 0 = some 18 := by decide
+example : records (run (init false) C04_promo_ops) = [([1, 2], 0), ([2], 1)] ∧
+    getWeight (run (init false) C04_promo_ops) [1, 2] 0 = some 28 ∧ overlap (run (init false) C04_promo_ops) [2] = 2 := by decide
+example : (aggregated (run (init false) C04_promo_ops)).map (fun a => (a.weighted, a.edges.map (fun e => (e.1, e.2.1)))) =
+    some (true, [([1, 2], 28), ([2], 2)]) := by decide
